@@ -25,6 +25,7 @@ func main() {
 	tier := flag.String("tier", "quick", "quick|thorough")
 	dump := flag.String("dump", "", "dump calls/guards of a function (debug)")
 	list := flag.String("list", "", "list function names containing substring (debug)")
+	dumpNames := flag.Bool("dump-names", false, "print the parameter-name reference table (tables/names.tsv) for the current tree")
 	flag.Parse()
 	debug.SetGCPercent(400)
 
@@ -49,6 +50,12 @@ func main() {
 		fmt.Fprintf(os.Stderr, "LOAD FAILED: only %d module packages loaded (floor 300)\n", len(p.Pkgs))
 		os.Exit(2)
 	}
+	if *dumpNames {
+		p.DumpNameTable(os.Stdout)
+		return
+	}
+	nAliased, nRenamed := p.LoadNameTable(*verif + "/tables/names.tsv")
+	p.NamesAliased, p.NamesRenamed = nAliased, nRenamed
 	if *list != "" {
 		var ns []string
 		for n := range p.ByName {
